@@ -346,11 +346,46 @@ func runMigrate(dir string, seed uint64, tier string) {
 					}
 				}
 				if coqChan2(&asV2, nil) != coqChan2(o, nil) {
+					// C06: reopening the store yields every accessor as it was; C07: totals and indexes never change over a restart
+					res.fail(monitorFailure{Property: "C06", CaseID: id, Signature: "record-changed-by-migrating-restart", What: "a channel read after the restart that migrated the datastore differs from the channel that was stored", Input: label,
+						Observed: coqChan2(&asV2, nil), Expected: coqChan2(o, nil)})
+					if nw.Queued != o.Queued || nw.Sent != o.Sent || nw.Received != o.Received || nw.QueuedBlocksTotal != o.QueuedBlocksTotal ||
+						nw.SentBlocksTotal != o.SentBlocksTotal || nw.ReceivedBlocksTotal != o.ReceivedBlocksTotal {
+						res.fail(monitorFailure{Property: "C07", CaseID: id, Signature: "totals-changed-by-migrating-restart", What: "a byte total or block index of a channel changed over the restart that migrated the datastore", Input: label,
+							Observed: fmt.Sprint(nw.Queued, nw.Sent, nw.Received, nw.QueuedBlocksTotal, nw.SentBlocksTotal, nw.ReceivedBlocksTotal),
+							Expected: fmt.Sprint(o.Queued, o.Sent, o.Received, o.QueuedBlocksTotal, o.SentBlocksTotal, o.ReceivedBlocksTotal)})
+					}
 					fail(id, "field-not-preserved", "a field of a version-2 channel changed in migration", label, coqChan2(&asV2, nil), coqChan2(o, nil))
 				}
 			}
 		}
 		// ----- migrated channels accept further events and persist like native ones -----
+		// a version-2 record may have no stage log at all (nil): the first event applied to the migrated channel
+		// adds a log line to it.  Probe that here, under recover, because inside the state machine's goroutine a
+		// panic would take the process down.
+		stageLogUsable := func() (ok bool) {
+			defer func() {
+				if recover() != nil {
+					ok = false
+				}
+			}()
+			var none *datatransfer.ChannelStages
+			none.AddLog("Ongoing", "probe")
+			return true
+		}()
+		if !stageLogUsable {
+			nilLog := false
+			for _, st := range decoded {
+				if st.Stages == nil {
+					nilLog = true
+				}
+			}
+			if nilLog {
+				fail(id, "migrated-channel-without-stage-log-cannot-take-events", "a migrated channel whose version-2 record had no stage log cannot take any event: adding a log line to the absent stage log panics", label, nil, nil)
+				_ = m.Stop(ctx)
+				continue
+			}
+		}
 		var evs []string
 		evented := map[int]bool{}
 		if ready {
